@@ -227,6 +227,27 @@ def context_events(path, index):
     return evs, target
 
 
+def prefix_events(path, index, whole_shard=False):
+    """All events of the chunk up to `index` (1-based, inclusive); with whole_shard also every event
+    of the earlier chunks written by the same driver process (state that leaks between calls - caches,
+    pools, lazily initialised tables - only shows with the history that preceded the call)."""
+    evs = []
+    if whole_shard:
+        m = re.match(r'(.*-s\d+-)(\d+)\.ndjson$', path)
+        if m:
+            for k in range(int(m.group(2))):
+                q = '%s%04d.ndjson' % (m.group(1), k)
+                if os.path.exists(q):
+                    with open(q) as f:
+                        evs += [json.loads(l) for l in f]
+    with open(path) as f:
+        for i, line in enumerate(f, 1):
+            evs.append(json.loads(line))
+            if i == index:
+                break
+    return evs
+
+
 # ------------------------------------------------------------------ replay and verdicts
 
 def replay_events(harness, events, scratch, module='Trace', any_event=False):
